@@ -389,7 +389,7 @@ func c19Run(c *mc.Ctx) {
 		bound = 3
 		reps = 300
 	}
-	c.Note("preemption_bound", fmt.Sprint(bound))
+	c.Note("preemption_bound", fmt.Sprint(bound)+" (scenarios persisted on the filesystem store: 2)")
 	if c19SetFsYield != nil {
 		c.Note("file_operation_scheduling_points", "yes (db/fs built against the os shim: create/write/close/rename of a save are separate scheduling points)")
 	} else {
@@ -419,6 +419,12 @@ func c19Run(c *mc.Ctx) {
 						continue
 					}
 					sc, slack := sc, slack
+					bound := bound
+					if bound > 2 && sc.Mode == "persisted-fs" {
+						// with the file operations of every save as scheduling points these executions are several
+						// times longer: the filesystem scenarios stay at two pre-emptions in the thorough tier
+						bound = 2
+					}
 					mc.Explore([]int{c0, c1}, bound, c.TimeUp, func(x *mc.Chooser) {
 						defer func() {
 							if r := recover(); r != nil {
